@@ -5,7 +5,7 @@ Explicit-state search (level-synchronous ES-BFS, merged on canonical states) ove
 while a DATA attempt is outstanding the environment chooses the peer's reaction from a fixed
 menu (covering ACK, covering DATA, stale ACK, NAK, silence, ERROR, RSTACK, and the coincidences
 "reaction lands in the same loop iteration as the ACK timeout" / "NAK and ERROR in one read"),
-optionally 0.3 s late.  After a failure the environment may deliver an RSTACK and a further
+optionally 0.3 s late or just ahead of the timeout.  After a failure the environment may deliver an RSTACK and a further
 send.  The oracle judges the timestamped wire trace incrementally.
 """
 from __future__ import annotations
@@ -37,7 +37,10 @@ REACTIONS = [
     ("silence", "deadline", None), ("ack", "deadline", "coinc"), ("data", "now", "data"), ("error51", "now", None),
     ("error80", "now", None), ("rstack", "now", "rstack"), ("nak+error", "now", "coinc"), ("error51", "deadline", "coinc"),
     ("nak", "deadline", "coinc"),
+    # just ahead of the deadline: the longest measured round trip the adaptive timeout can be fed with
+    ("ack", "almost", "slow"), ("nak", "almost", "slow"),
 ]
+ALMOST = 0.01
 BUDGET_DEFAULT = {"slow": 1, "stale": 1, "coinc": 1, "data": 1, "rstack": 1}
 
 
@@ -307,6 +310,8 @@ class World:
         data = b"".join(ref_ash.wire(f) for f in frames)
         if when == "slow":
             self.loop._vtime += SLOW
+        if when == "almost":
+            self.loop._vtime = self.loop.next_deadline() - ALMOST
         if when == "deadline":
             dl = self.loop.next_deadline()
             if dl is None:
@@ -352,6 +357,8 @@ class World:
                 if when == "slow" and (dl is None or dl - self.loop.time() <= SLOW + EPS):
                     continue
                 if when == "deadline" and dl is None:
+                    continue
+                if when == "almost" and (dl is None or dl - self.loop.time() <= SLOW + ALMOST + EPS):
                     continue
                 if name.startswith("stale") and c.stale_used:
                     continue
